@@ -57,7 +57,7 @@ def construct(eng, p, n, args, kws):
         if kind is None: raise Unsupported(f'array typecode {code!r}')
         r = eng.new_obj(p, 'arr', ('arr', K(IntSort(), V.VInt(IntVal(0))), IntVal(0), kind, code))
         return [(p, r)]
-    if n == 'io.BytesIO':
+    if n in ('io.BytesIO', '_io.BytesIO'):
         trusted('io.BytesIO: write appends at the position, read(n) returns and consumes up to n bytes, seek sets the position')
         if args: raise Unsupported('BytesIO(initial)')
         return [(p, eng.new_obj(p, 'bytesio', ('bytesio', Empty(Bytes), IntVal(0))))]
@@ -192,6 +192,11 @@ def getitem(eng, p, base, idx):
         eng.oblige(p, 'dict.key_present', Select(Select(dom, base.i), kk), 'pre')
         return SInt(Select(Select(val, base.i), kk))
     c = content(p, base)
+    if c[0] == 'pydict':
+        if not is_concrete(idx): raise Unsupported('symbolic key into a literal dict')
+        for k, v in c[1]:
+            if k == idx: return v
+        raise Unsupported(f'key {idx!r} not in literal dict')
     if c[0] == 'arr' and c[3] == 'dict':
         i = norm_index(eng, p, idx, c[2], 'list')
         return Host('dictview', ref=base, i=i)
@@ -417,6 +422,9 @@ def dyn_contains(eng, p, x, item):
 
 
 def dyn_method(eng, p, o, name, args, kws):
+    if name in ('decode', 'encode'):
+        from . import libmodels
+        return libmodels.str_codec(eng, p, o, name, args, kws)
     eng.oblige(p, 'type.container', V.is_VRef(o.t), 'type')
     a = V.addr(o.t)
     ds, dset = dyn_arrays(p)
